@@ -17,6 +17,7 @@ CONSTANTS NKeys,         \* argument tuples 1..NKeys: distinct cache keys althou
           Limits, Expirations, MaxT, MaxOps,
           Outs,          \* outcomes the wrapped function may have: subset of {"val", "exc"}
           Steps,         \* clock increments the environment may make in one Advance
+          MaxRenew,      \* how often a receiver may be discarded and replaced by a new instance
           Bug
 
 LRU == INSTANCE CacheLRU
@@ -29,21 +30,23 @@ VARIABLES form, limit, expn,   \* configuration chosen in Init (expn = 0: no exp
           ninv,                \* invocations of the wrapped function so far
           invKey, invAt, invOut, \* ghost: key, time and outcome of invocation i
           uses,                \* ghost: keys called, in order
+          rid, nrid, nren,     \* identity of the instance currently in each receiver slot; identities handed out; renewals
           nops, drained,
           obs                  \* [inv, fresh, out, at, drain]: which invocation's outcome the caller got
 
-vars == <<form, limit, expn, now, entries, ninv, invKey, invAt, invOut, uses, nops, drained, obs>>
+vars == <<form, limit, expn, now, entries, ninv, invKey, invAt, invOut, uses, rid, nrid, nren, nops, drained, obs>>
 conf == <<form, limit, expn>>
 
 IsMethod == form \in {"sync_method", "async_method"}
 IsAsync == form \in {"async_fn", "async_method"}
 Recv == IF IsMethod THEN Receivers ELSE {0}
-KeyOf(r, k) == <<r, k>>
+KeyOf(r, k) == <<IF r = 0 THEN 0 ELSE rid[r], k>>      \* the key names the INSTANCE, not the slot
 
 Init == /\ form \in Forms /\ limit \in Limits /\ expn \in Expirations
         /\ now = 0 /\ entries = <<>> /\ ninv = 0
         /\ invKey = <<>> /\ invAt = <<>> /\ invOut = <<>> /\ uses = <<>> /\ nops = 0
         /\ drained = FALSE
+        /\ rid = [r \in Receivers |-> r] /\ nrid = NRecv /\ nren = 0
         /\ obs = [inv |-> 0, fresh |-> FALSE, out |-> "none", at |-> 0, drain |-> <<>>]
 
 (* one call with receiver r and arguments k; o is what the function does if it gets invoked *)
@@ -65,15 +68,23 @@ Call(r, k, o) ==
                                THEN LRU!Dropped(entries, key)       \* sync: a raising call stores nothing
                                ELSE LRU!Stored(entries, key, n, now, expn, limit, Bug)
                /\ obs' = [inv |-> n, fresh |-> TRUE, out |-> o, at |-> now, drain |-> <<>>]
-  /\ UNCHANGED <<conf, now, drained>>
+  /\ UNCHANGED <<conf, now, drained, rid, nrid, nren>>
+
+(* the instance in receiver slot r is discarded (garbage collected) and a NEW instance takes the slot: whatever the old
+   one had cached is not the new one's - its entries linger in the table until evicted, but nothing may serve them *)
+Renew(r) ==
+  /\ IsMethod /\ r \in Receivers /\ nren < MaxRenew /\ nren' = nren + 1
+  /\ nops < MaxOps /\ nops' = nops + 1 /\ ~drained
+  /\ nrid' = nrid + 1 /\ rid' = [rid EXCEPT ![r] = nrid + 1]
+  /\ UNCHANGED <<conf, now, entries, ninv, invKey, invAt, invOut, uses, drained, obs>>
 
 Advance(dt) == /\ now + dt <= MaxT /\ now' = now + dt /\ ~drained /\ nops < MaxOps /\ nops' = nops + 1
-           /\ UNCHANGED <<conf, entries, ninv, invKey, invAt, invOut, uses, drained, obs>>
+           /\ UNCHANGED <<conf, entries, ninv, invKey, invAt, invOut, uses, drained, obs, rid, nrid, nren>>
 
 (* epilogue from every state: call every (receiver, key) once more, in a fixed order; which
    invocation answers each of them exposes the hidden table (LRU order, expiry, eviction) *)
 DrainSeq == LET rs == IF IsMethod THEN NRecv ELSE 1 IN
-            [i \in 1..(rs * NKeys) |-> <<(IF IsMethod THEN 1 ELSE 0) + ((i - 1) \div NKeys), 1 + ((i - 1) % NKeys)>>]
+            [i \in 1..(rs * NKeys) |-> <<IF IsMethod THEN rid[1 + ((i - 1) \div NKeys)] ELSE 0, 1 + ((i - 1) % NKeys)>>]
 RECURSIVE DrainFrom(_, _, _, _)
 DrainFrom(es, n, i, acc) ==
   IF i > Len(DrainSeq) THEN acc
@@ -83,9 +94,10 @@ DrainFrom(es, n, i, acc) ==
          ELSE DrainFrom(LRU!Stored(es, key, n + 1, now, expn, limit, Bug), n + 1, i + 1, Append(acc, n + 1))
 Drain == /\ ~drained /\ drained' = TRUE
          /\ obs' = [inv |-> 0, fresh |-> FALSE, out |-> "none", at |-> now, drain |-> DrainFrom(entries, ninv, 1, <<>>)]
-         /\ UNCHANGED <<conf, now, entries, ninv, invKey, invAt, invOut, uses, nops>>
+         /\ UNCHANGED <<conf, now, entries, ninv, invKey, invAt, invOut, uses, nops, rid, nrid, nren>>
 
-Next == (\E dt \in Steps : Advance(dt)) \/ Drain \/ \E r \in Receivers \cup {0}, k \in Keys, o \in Outs : Call(r, k, o)
+Next == (\E dt \in Steps : Advance(dt)) \/ Drain \/ (\E r \in Receivers : Renew(r))
+        \/ \E r \in Receivers \cup {0}, k \in Keys, o \in Outs : Call(r, k, o)
 Spec == Init /\ [][Next]_vars
 
 -----------------------------------------------------------------------------
